@@ -1156,8 +1156,8 @@ VARIANTS = [
       '          if not task.is_alive and not task.done():\n            timeout_tasks.append(task.set(_exc=None))\n          elif not task.is_alive:\n            timeout_tasks.append(task.set(_exc=None))\n          elif task.done():\n            if exc := task.exception():',
       'R-C06-11'),
     B('failure-stored-after-stop', 'utils/iter_utils.py',
-      '        self._exception = e\n        self._stop_enqueue()\n        raise e\n\n\nclass _ThreadSafeIterator',
-      '        self._stop_enqueue()\n        self._exception = e\n        raise e\n\n\nclass _ThreadSafeIterator',
+      '        self._exception = e\n        self._stop_enqueue()\n        e.add_note(f\'Exception during enqueueing "{self.name}".\')',
+      '        self._stop_enqueue()\n        self._exception = e\n        e.add_note(f\'Exception during enqueueing "{self.name}".\')',
       'R-C06-10'),
     B('placeholder-cancel-outside-finally', _U,
       '      raise e\n    finally:\n      generator_state.cancel()',
